@@ -119,6 +119,7 @@ func cmdCheck(mode string, args []string) {
 	if run.Out == "" {
 		run.Out = *verif
 	}
+	initSlots(*verif)
 	dirs, err := contractPackages(*repo, *prop)
 	if err != nil || len(dirs) == 0 {
 		run.fatal("no contract files mention %s under %s (hooks missing?)", *prop, *repo)
@@ -153,6 +154,7 @@ func cmdCheck(mode string, args []string) {
 		run.addExec(x, *prop)
 	}
 	run.addLemmas(*prop)
+	run.addEncapsulation(*prop)
 	run.addTables(*prop)
 	run.addStateUnits(*prop)
 	if mode == "dump" {
